@@ -884,7 +884,11 @@ func (a *Analysis) Obligations(in map[*ssa.Function]bool, skipBounds func(*ssa.F
 					case "(*bytes.Buffer).Next", "(*bytes.Buffer).Grow":
 						cnt = x.Call.Args[1]
 					}
-					if cnt != nil && a.T[cnt] {
+					if cnt != nil && a.T[cnt] && name == "(*bytes.Buffer).Grow" {
+						// Grow allocates what it is told to: an allocation, not an incremental copy
+						o := add("U4", x, "alloc("+name+")")
+						a.decideAlloc(o, a.Upper(cnt, b), fn)
+					} else if cnt != nil && a.T[cnt] {
 						o := add("U4", x, "count("+name+")")
 						ub := a.Upper(cnt, b)
 						if ub.Kind != Unbounded {
